@@ -17,7 +17,9 @@ EXTENDS Naturals, Sequences, TLC
 Formats == <<"json", "rdf", "provn", "xml">>        \* registry order = trial order
 Readable == {"json", "xml", "rdf"}
 DestKinds == {"string", "text", "binary", "path"}
-SrcKinds == {"content_str", "content_bytes", "text", "binary", "path"}
+SrcKinds == {"content_str", "content_bytes", "text", "binary", "path",
+             "pathurl",       \* a local file name containing '#' and ';' (URL syntax)
+             "textfile"}      \* a file-backed text stream in UTF-16 the library itself wrote through that stream
 StreamKinds == {"text", "binary"}
 
 (* what a parser of format `try' makes of text in format `fmt' seen from position pos: *)
